@@ -12,14 +12,14 @@ LEVEL = {
  "C02": ("exploration", "Allocator ledger (layout-exact free, red zones, poison+quarantine, per-op address-range check of every handle), ASan, Miri and valgrind observe the same generated histories incl. out-of-contract arguments, in debug and release, with even/odd buffer addresses. The unsafe code behind Buf/BufMut (raw copies, UninitSlice, chunk_mut, Take::chunks_vectored, io::Cursor arithmetic) is driven by the reader/writer/cursor conformance engines under ASan, ledger guard bytes and valgrind. A dead shard (SIGSEGV etc.) counts as a violation. Sanitizers only see what the workload reaches. (One auxiliary static guard outside the technique family: a program keeping chunk() across a mutation must be rejected by rustc.)", "§4 C02, §11.6"),
  "C03": ("exploration", "Ledger balance at the end of every history after dropping survivors in enumerated/random orders, refcount conservation at every quiescent point (H2), instrumented owners (as_ref/drop counters, drop timing), LSan and Miri leak checks. (Auxiliary static guard outside the family: from_owner must reject a non-'static owner.)", "§4 C03, §11.6"),
  "C04": ("exploration", "Region monitor: after every op of BytesMut-centred histories all [ptr,ptr+cap) regions are checked against each other, against live Bytes and against the ledger's blocks; reserve/try_reclaim postconditions with boundary arguments in debug and release; write probes into spare capacity.", "§4 C04"),
- "C05": ("exploration", "Small multi-threaded programs on real threads (ledger allocator, seeded delays injected through the H1 hook between the crate's atomic steps; the same programs under ASan+LSan) and under Miri's randomised scheduler (many seeds): per-thread value/address assertions plus a post-join trace check (at most one zero-copy exclusive owner, disjoint exclusive regions, storage freed exactly once). Sampled schedules only; the evidence reports distinct interleaving signatures and how often the lost-promotion-race path was seen. (Auxiliary static guard outside the family: programs sending a !Send owner / adapter across threads must be rejected by rustc; the Send bound of from_owner cannot be observed at run time because the violating program does not compile on a correct tree.)", "§4 C05, §11.6"),
+ "C05": ("exploration", "Small multi-threaded programs on real threads (ledger allocator, seeded delays injected through the H1 hook between the crate's atomic steps; the same programs under ASan+LSan) and under Miri's randomised scheduler (many seeds): per-thread value/address assertions plus a post-join trace check (at most one zero-copy exclusive owner, disjoint exclusive regions, storage freed exactly once). After the randomly delayed repetitions every program is run once per (thread, hook event) with that thread held there until the others finish (all single-preemption schedules at the hooked atomic steps). Otherwise sampled schedules only; the evidence reports distinct interleaving signatures and how often the lost-promotion-race path was seen. (Auxiliary static guard outside the family: programs sending a !Send owner / adapter across threads must be rejected by rustc; the Send bound of from_owner cannot be observed at run time because the violating program does not compile on a correct tree.)", "§4 C05, §11.6"),
  "C06": ("exploration", "Happens-before race detection by Miri (weak-memory emulation, vector clocks incl. deallocation, many seeds, with the hook and with the hook compiled out) and by ThreadSanitizer (-Zbuild-std) on the same programs; both follow the orderings written in the source, so a missing Release/Acquire edge is reported on any racy-shaped execution even on x86. Sampled schedules only.", "§4 C06"),
  "C07": ("exploration", "Pointer-arithmetic oracle per zero-copy op plus per-call allocation events from the ledger (no align-1 allocation allowed) over the generated histories.", "§4 C07"),
  "C08": ("exploration", "Three-valued uniqueness oracle (pool + ledger) evaluated on every live Bytes after every op; try_into_mut vs is_unique vs address; reclaim clause probed whenever an empty sole BytesMut exists.", "§4 C08"),
  "C13": ("fault_enumeration", "34 out-of-contract call variants injected at every point of generated histories (exhaustively as first step from 16 start states with every 1-op continuation; randomly in walks), each under catch_unwind with a before/after snapshot of every handle, in debug and release, on the ledger and under ASan; a crash inside such a call is a violation.", "§4 C13"),
- "C09": ("exploration", "Lock-step law monitor: reader trees made of the crate's real adapters are compared with a flat Vec<u8> model after every cursor op; every fragmentation of sequences of length<=6 x 7 wrappers x every op pair, plus random trees to depth 4; Miri on a slice of it.", "§4 C09"),
+ "C09": ("exploration", "Lock-step law monitor: reader trees made of the crate's real adapters are compared with a flat Vec<u8> model after every cursor op; every fragmentation of sequences of length<=6 x 7 wrappers x every op pair, plus random trees to depth 4; an io::Cursor position/count sweep; a 128 MiB BytesMut advanced across the 32-bit front-offset limit; Miri (host and i686) on slices of it.", "§4 C09"),
  "C10": ("exploration", "Exhaustive getter table (method x value pattern x implementor x chunk-boundary position x call path x shortfall) against a reference decoder, debug+release natively, and slices of it under Miri for host, big-endian s390x and 32-bit i686.", "§4 C10"),
- "C11": ("exploration", "Writer-tree monitor: model of appended bytes, guard bytes around fixed targets, remaining_mut/chunk_mut laws after every step, dismantling at the end, read-back with the matching getter; ledger (red zones), ASan, Miri and valgrind memcheck runs.", "§4 C11"),
+ "C11": ("exploration", "Writer-tree monitor: model of appended bytes, guard bytes around fixed targets, remaining_mut/chunk_mut laws after every step, dismantling at the end, read-back with the matching getter; a putter table (every put_X x nbytes x value x leaf-boundary position, complete natively, slices under Miri host / s390x / i686, native-endian rows complete on s390x); puts from a source that panics part-way (accounting must match what the target really holds); ledger (red zones), ASan, Miri and valgrind memcheck runs.", "§4 C11"),
  "C12": ("exploration", "Dismantling oracle: after each generated use the adapter tree is taken apart with into_inner/get_ref/limit and every inner cursor compared with model[transferred..]; Reader/Writer io results; per-leaf distribution for Chain/Limit writers.", "§4 C12"),
  "C16": ("exploration", "Differential monitor: identical seeded histories and the getter table are executed in 12 build/parity configurations (plus Miri 32-bit and big-endian for table slices) and per-case digests of all observable results are compared.", "§4 C16"),
  "C17": ("fault_enumeration", "Lying/panicking safe trait implementations (exhaustive single-lie placements per entry point, then random multi-lie schedules) are driven into 36 consumers (plus serde visit_seq) under the ledger (violations + leak balance after unwinding), ASan/LSan, Miri and valgrind memcheck (results are read, so uninitialised bytes handed out are reported); only memory errors, crashes and leaks count.", "§4 C17"),
